@@ -80,6 +80,13 @@ impl ShardQueue {
     {
         unimplemented!()
     }
+    // std::mem::take(&mut *guard): the queue's content moves out, an empty queue stays behind
+    #[verifier::external_body]
+    pub fn take_queue(self) -> (q: ShardQueue)
+        ensures q.view() == self.view(),
+    {
+        unimplemented!()
+    }
     #[verifier::external_body]
     pub fn push_front(&mut self, e: WriteEntry)
         ensures final(self).view() == seq![e] + old(self).view(),
@@ -137,6 +144,10 @@ impl<T> RevQueue<T> {
     {
         self.it.next_back()
     }
+}
+
+// drop(x): ends x's lifetime (no effect on the state that is modelled)
+pub fn drop<T>(t: T) {
 }
 
 // ---- the write buffer's enqueue side
